@@ -35,6 +35,9 @@ CALLEES = {
     "bt": ("def g(x: bool) -> Tuple[bool, bool]:\n    return (x, not x)\n", ["bool"], "tbb"),
     "ibi": ("def g(x: Qint[2], y: bool) -> Qint[2]:\n    return (x + 2) if y else x\n", ["int", "bool"], "int"),
     "i4": ("def g(x: Qint[4]) -> Qint[4]:\n    return x + 3\n", ["int4"], "int4"),
+    "reassign": ("def g(x: Qint[2], y: Qint[2]) -> Qint[2]:\n    c = x + y\n    d = c + 1\n    c = d + x\n    return c\n", ["int", "int"], "int"),
+    "ifupd": ("def g(x: bool, y: bool) -> bool:\n    c = x\n    if y:\n        c = not c\n    d = c and x\n    return d or y\n", ["bool", "bool"], "bool"),
+    "augm": ("def g(x: Qint[2], y: bool) -> Qint[2]:\n    c = x\n    c += 1\n    if y:\n        c += x\n    return c\n", ["int", "bool"], "int"),
     "multi": ("def g(x: bool, y: bool) -> bool:\n    z = x ^ y\n    w = z and x\n    return w or not y\n", ["bool", "bool"], "bool"),
 }
 TY = {"bool": "bool", "int": Q2, "int4": "Qint[4]", "tbb": "Tuple[bool, bool]", "tib": "Tuple[Qint[2], bool]"}
@@ -96,6 +99,20 @@ def universe():
         items.append({"fam": "compose-naming", "mech": "defs", "callee": csrc, "caller": caller_src(e0 + (" ^ g_x" if rt == "bool" else ""), rty, extra_args=[("g_x", "bool")] if rt == "bool" else [("g_x", "bool")])})
         items.append({"fam": "compose-naming", "mech": "defs", "callee": csrc, "caller": caller_src(e0, rty, pre=["x = %s" % ("not a" if True else "")], extra_args=[("a", "bool")] if "a" not in [n for n, _ in used_args(e0)] else [])})
         items.append({"fam": "compose-naming", "mech": "defs", "callee": csrc, "caller": caller_src(e0, rty, pre=["_ret = a", "y = _ret"], extra_args=[("a", "bool")] if "a" not in [n for n, _ in used_args(e0)] else [])})
+    # caller variables named like the callee's renamed formals, passed crosswise
+    cross = [
+        (CALLEES["bb"][0], "def caller(g_x: bool, g_y: bool) -> bool:\n    return g(g_y, g_x)\n"),
+        (CALLEES["bb"][0], "def caller(g_y: bool, a: bool) -> bool:\n    return g(g_y, a)\n"),
+        (CALLEES["bb"][0], "def caller(g_y: bool, g_x: bool) -> bool:\n    return g(g_x and g_y, g_x)\n"),
+        (CALLEES["iii"][0], "def caller(g_x: Qint[2], g_y: Qint[2]) -> Qint[2]:\n    return g(g_y, g_x)\n"),
+        (CALLEES["iib"][0], "def caller(g_y: Qint[2], g_x: Qint[2]) -> bool:\n    return g(g_y, g_x)\n"),
+        ("def g(x: bool, y: bool) -> bool:\n    x = x and y\n    return x or y\n", "def caller(a: bool, b: bool) -> bool:\n    return g(a, b)\n"),
+        ("def g(g_a: bool, y: bool) -> bool:\n    return g_a and not y\n", "def caller(a: bool, b: bool) -> bool:\n    return g(b, a)\n"),
+        ("def g(x: bool, y: bool) -> bool:\n    return x and not y\n", "def caller(x: bool, y: bool) -> bool:\n    return g(y, x)\n"),
+    ]
+    for csrc, caller in cross:
+        for mech in ("defs", "inline"):
+            items.append({"fam": "compose-naming", "mech": mech, "callee": csrc, "caller": caller})
     # oraclize(f, y) for every y
     orc = [
         ("def g(x: Qint[2]) -> Qint[2]:\n    return x + 1\n", [0, 1, 2, 3]),
